@@ -379,7 +379,7 @@ class Prop:
             if ctx.search_mode:
                 depth = 3
             lines, nalpha = self.exhaustive_cases(depth)
-            ctx.extra["exhaustive"] = {"depth": depth, "alphabet": nalpha, "initial_sizes": [0, 1, 8],
+            ctx.extra["exhaustive_part"] = {"depth": depth, "alphabet": nalpha, "initial_sizes": [0, 1, 8],
                                        "sequences": 3 * nalpha ** depth}
             self.run_batch(ctx, exe, lines, "exhaustive-depth-%d" % depth)
             if ctx.stop():
